@@ -339,6 +339,18 @@ def probes(P):
                 KNOWN.append(('F20', '%option noline leaves the initial #line 1 "<input file>" directive in the scanner (-L does not)'))
                 continue
         rec(opt, 'cli-vs-%option', a == b, '%%option %s and %s generate different scanners' % (opt, cli))
+    # ---- -C flags "may be freely mixed, and are cumulative": separate flags = one combined flag ------
+    for sep, comb in [(['-Cf', '-Ca'], '-Cfa'), (['-Cf', '-Ce'], '-Cfe'), (['-Ce', '-Cm'], '-Cem'), (['-CF', '-Ca'], '-CFa'),
+                      (['-Ca', '-Cf'], '-Caf'), (['-Cf', '-Ca', '-Ce'], '-Cfae'), (['-CF', '-Ce'], '-CFe'), (['-Cm', '-Ca', '-Ce'], '-Cmae'),
+                      (['-Ce', '-Cf'], '-Cef'), (['-Ca', '-CF'], '-CaF')]:
+        rc1, se1, cf1 = P.gen(spec(['noyywrap']), sep, name='csep')
+        t1 = open(cf1, errors='replace').read() if rc1 == 0 else None
+        rc2, se2, cf2 = P.gen(spec(['noyywrap']), [comb], name='csep')
+        t2 = open(cf2, errors='replace').read() if rc2 == 0 else None
+        rec('-C cumulative:' + ' '.join(sep), 'cli', rc1 == rc2 and t1 == t2,
+            'flex %s and flex %s give different results (rc %s / %s%s)' % (' '.join(sep), comb, rc1, rc2,
+            '' if t1 is None or t2 is None else '; first difference: %r' % next(
+                ((a, b) for a, b in zip(t1.split('\n'), t2.split('\n')) if a != b), None).__repr__()[:200]))
     # ---- stdinit (known finding F52) ------------------------------------------------------------
     rc, se, cf = P.gen(spec(['noyywrap', 'stdinit'], epilogue='int main(void) { return yyin == stdin ? 0 : 9; }\n'))
     rc2, out, exe = P.cc(cf) if rc == 0 else (1, se, None)
